@@ -75,7 +75,7 @@ func runCore(t *rapid.T, isValue bool) {
 	}
 	lib.Ev.Class("core")
 	lib.Ev.Case(nt, func() any {
-		return map[string]any{"config": cfg.String(), "registered": len(reg.entries), "inputs scribbled": reg.scribbled, "history": r.History}
+		return map[string]any{"config": cfg.String(), "registered": reg.count(), "inputs scribbled": reg.scribbled, "history": r.History}
 	})
 }
 
